@@ -40,9 +40,12 @@ Record exinfo := mkX {
   x_genexit : bool;        (* arg[0] is GeneratorExit *)
   x_tbnone : bool;         (* arg[2] is None *)
   x_tbf : option Z;        (* innermost frame of the traceback arg[2] *)
-  x_tbline : Z             (* its line *)
+  x_tbline : Z;            (* its line *)
+  x_tbpar : option Z;      (* its f_back (it may be a frame of another thread/task: the exception of a task
+                              re-raised by `await`) *)
+  x_tbgen : bool           (* its generator flag *)
 }.
-Definition noX := mkX false false false None 0.
+Definition noX := mkX false false false None 0 None false.
 
 Record event := mkE {
   e_kind : kind;
@@ -188,7 +191,7 @@ Definition curframe (st : state) (e : event) : Z * Z * option Z * bool :=
   match e_kind e, x_tbf (e_x e) with
   | KException, Some t =>
       if negb (Z.eqb t (e_fid e)) && negb (on_chain st e)
-      then (t, x_tbline (e_x e), parent_of st t, gen_of st t)
+      then (t, x_tbline (e_x e), x_tbpar (e_x e), x_tbgen (e_x e))
       else (e_fid e, e_line e, e_par e, e_gen e)
   | _, _ => (e_fid e, e_line e, e_par e, e_gen e)
   end.
@@ -347,14 +350,15 @@ Definition kind_of (z : Z) : kind :=
   if z =? 0 then KCall else if z =? 1 then KLine else if z =? 2 then KReturn else KException.
 Definition opt_of (z : Z) : option Z := if z <? 0 then None else Some z.
 
-(* (kind, fid, parent|-1, line, module index, flags: 1 lambda 2 generator 4 StopIteration 8 GeneratorExit 16 tb None, tb frame|-1, tb line) *)
-Definition raw := (Z * Z * Z * Z * Z * Z * Z * Z)%type.
+(* (kind, fid, parent|-1, line, module index, flags: 1 lambda 2 generator 4 StopIteration 8 GeneratorExit 16 tb None
+   32 tb frame is a generator, tb frame|-1, tb line, f_back of the tb frame|-1) *)
+Definition raw := (Z * Z * Z * Z * Z * Z * Z * Z * Z)%type.
 
 Definition mk_event (classes : list mclass) (r : raw) : event :=
-  let '(k, f, p, l, m, fl, tf, tl) := r in
+  let '(k, f, p, l, m, fl, tf, tl, tp) := r in
   mkE (kind_of k) f (opt_of p) l (nth (Z.to_nat m) classes MLib) m
       (Z.testbit fl 0) (Z.testbit fl 1)
-      (mkX (Z.testbit fl 2) (Z.testbit fl 3) (Z.testbit fl 4) (opt_of tf) tl).
+      (mkX (Z.testbit fl 2) (Z.testbit fl 3) (Z.testbit fl 4) (opt_of tf) tl (opt_of tp) (Z.testbit fl 5)).
 
 Definition cmd_of (z : Z) : cmd :=
   if z =? 0 then Step else if z =? 1 then Next else if z =? 2 then Return else if z =? 3 then Until else Continue.
